@@ -150,6 +150,8 @@ type batch struct {
 	samples    []*core.Record
 	deaths     []death
 	distinct   map[uint64]bool // nontrivial distinct case hashes
+	distinct2  map[uint64]bool // second distinct-set (C12: preemption pairs)
+	counts     map[string]map[string]int
 	distinctAll int
 	extra      map[string]any
 	mu         sync.Mutex
@@ -170,7 +172,7 @@ type death struct {
 }
 
 func newBatch() *batch {
-	return &batch{faults: map[string]int{}, probes: map[string]int{}, sitesHit: map[uint32]bool{}, distinct: map[uint64]bool{}, extra: map[string]any{}}
+	return &batch{faults: map[string]int{}, probes: map[string]int{}, sitesHit: map[uint32]bool{}, distinct: map[uint64]bool{}, distinct2: map[uint64]bool{}, counts: map[string]map[string]int{}, extra: map[string]any{}}
 }
 
 func (b *batch) absorb(res *childResult, hashFile string) {
@@ -192,6 +194,9 @@ func (b *batch) absorb(res *childResult, hashFile string) {
 		for _, x := range s.SitesHit {
 			b.sitesHit[x] = true
 		}
+		for h, m := range s.Counts {
+			b.counts[h] = core.AddCounts(b.counts[h], m)
+		}
 		if s.SitesTotal > 0 {
 			b.sitesTotal = s.SitesTotal
 		}
@@ -210,9 +215,14 @@ func (b *batch) absorb(res *childResult, hashFile string) {
 	if hashFile != "" {
 		if raw, err := os.ReadFile(hashFile); err == nil {
 			for i := 0; i+9 <= len(raw); i += 9 {
-				b.distinctAll++
-				if raw[i+8] == 1 {
+				switch raw[i+8] {
+				case 2:
+					b.distinct2[binary.LittleEndian.Uint64(raw[i:i+8])] = true
+				case 1:
+					b.distinctAll++
 					b.distinct[binary.LittleEndian.Uint64(raw[i:i+8])] = true
+				default:
+					b.distinctAll++
 				}
 			}
 		}
